@@ -273,18 +273,17 @@ Definition f_ipslice (l : line) (name : bytes) (v : option bytes) : res line :=
    end)%res.
 
 (* IP(name, value netip.Addr): open;
-     if value.IsValid() { b := value.AppendTo(l.buffer[l.index:l.index]); l.index += len(b) } else copy "nil"
-   [Some t]: a valid address whose AppendTo text is t.  The slice expression panics iff
-   index > 2048.  AppendTo appends byte-wise into the spare capacity 2048-index; when the text
-   does not fit, append reallocates, the buffer keeps the part that fitted and the index still
-   advances by len(t) past 2048 -- from then on every operation that reads the line panics. *)
+     if value.IsValid() { b := value.AppendTo(l.buffer[l.index:l.index]); l.index += copy(l.buffer[l.index:], b) } else copy "nil"
+   [Some t]: a valid address whose AppendTo text is t.  AppendTo appends byte-wise into the spare capacity
+   2048-index: when t fits, b is the buffer itself and the copy is the identity; when it does not, append
+   reallocated, the buffer holds the part that fitted and the copy writes that same prefix: in both cases
+   this is copy(l.buffer[l.index:], t).
+   (as found: l.index += len(b), which advanced the index past byte 2048 when the text did not fit, after
+    which ToString panicked; repaired in /repo "fix: fastlog IP and Module never advance the index past the buffer") *)
 Definition f_ip (l : line) (name : bytes) (v : option bytes) : res line :=
   (l <- field_open l name ;;
    match v with
-   | Some t =>
-       if Nat.ltb BUFSZ (index l) then Panic
-       else Ok (mkLine (write_at (buf l) (index l) (firstn (BUFSZ - index l) t))
-                       (index l + List.length t))
+   | Some t => copy_in l t
    | None => copy_in l NIL
    end)%res.
 
@@ -324,9 +323,10 @@ Definition module7 (m : bytes) : bytes :=
   let m6 := firstn 6 m in m6 ++ repeat 32 (6 - List.length m6) ++ [58].
 
 (* newModule(module, msg):
-     if module != "" { copy(l.buffer[l.index:], "      :"); copy(l.buffer[l.index:l.index+6], module); l.index += 7 }
+     if module != "" { n := copy(l.buffer[l.index:], "      :"); copy(l.buffer[l.index:l.index+6], module); l.index += n }
      if msg != "" { ' ' '"' copy msg '"' }
-   l.buffer[l.index:l.index+6] panics iff index+6 > 2048; the index advances by 7 unconditionally *)
+   l.buffer[l.index:l.index+6] panics iff index+6 > 2048; the index advances by what was copied
+   (as found: by 7 unconditionally, i.e. to 2049 from 2042; repaired together with IP) *)
 Definition new_module (l : line) (m msg : bytes) : res line :=
   (l <- match m with
         | [] => Ok l
@@ -336,7 +336,7 @@ Definition new_module (l : line) (m msg : bytes) : res line :=
               let n := Nat.min 7 (BUFSZ - index l) in
               let b1 := write_at (buf l) (index l) (firstn n [32;32;32;32;32;32;58]) in
               if Nat.ltb BUFSZ (index l + 6) then Panic
-              else Ok (mkLine (write_at b1 (index l) (firstn 6 m)) (index l + 7))
+              else Ok (mkLine (write_at b1 (index l) (firstn 6 m)) (index l + n))
         end ;;
    match msg with
    | [] => Ok l
